@@ -10,6 +10,7 @@ from common import Ctx, classify_exc, field, sx, to_frac
 from progs import differentiable_nonleaves, numel, random_mtl, random_program
 from prop_C01 import TRUSTED
 
+from torchjd.aggregation import GradDrop, PCGrad, Random
 from torchjd.autojac._transform import (Aggregate, Diagonalize, EmptyTensorDict, Grad, Gradients, Init, Jac,
                                         Jacobians, Select, Stack)
 
@@ -155,7 +156,7 @@ def one_program(ctx: Ctx, P):
             real = run_real(lambda: Grad([], [ts[i] for i in ins], retain_graph=True)(Gradients({})))
             rep = drv.ask(base + [["op", "grad", [], ins], ["input"]])
             cmp(ctx, "Grad", P, real, rep, gconv, {"outs": [], "ins": ins}, tag="F7-grad-no-outputs-uninitialised")
-            real = run_real(lambda: Jac([], [ts[i] for i in ins], rng.choice([None, 1, 2]), retain_graph=True)(Jacobians({})))
+            real = run_real(lambda: Jac(outputs=[], inputs=[ts[i] for i in ins], chunk_size=rng.choice([None, 1, 2]), retain_graph=True)(Jacobians({})))
             rep = drv.ask(base + [["op", "jac", [], ins, "none"], ["input"]])
             cmp(ctx, "Jac", P, real, rep, jconv, {"outs": [], "ins": ins})
             real = run_real(lambda: Grad([ts[o] for o in outs], [], retain_graph=True)(Gradients({ts[o]: cots[o] for o in outs})))
@@ -165,7 +166,7 @@ def one_program(ctx: Ctx, P):
         m = rng.choice([1, 2, 3, 5, 7, 10, 13])
         jc = {o: ints(rng, (m,) + tuple(P.nodes[o].shape)) for o in outs}
         chunk = rng.choice([None, 1, 2, m, m + 1] + list(range(3, m)))       # every chunk size, dividing the batch or not
-        jac_t = Jac([ts[o] for o in outs], [ts[i] for i in ins], chunk, retain_graph=True)
+        jac_t = Jac(outputs=[ts[o] for o in outs], inputs=[ts[i] for i in ins], chunk_size=chunk, retain_graph=True)
         real = run_real(lambda: jac_t(Jacobians({ts[o]: jc[o] for o in outs})))
         if real[0] == "ok":
             # a transform is a function of its input: using the same instance again (same batch size, other cotangents)
@@ -205,6 +206,34 @@ def one_program(ctx: Ctx, P):
             rep = drv.ask(base + [["op", "aggregate", korder, *agg],
                                   ["input", *[[i, rows(jd[ts[i]])] for i in ins]]])
             cmp(ctx, "Aggregate", P, real2, rep, gconv, {"key_order": korder, "agg": str(agg)})
+            # --- a STOCHASTIC aggregator sees the united matrix ONCE: under a fixed seed the result is the aggregation of the
+            #     concatenated matrix, cut into the keys' slices (one draw of weights / masks for all keys)
+            if len(korder) >= 1 and m >= 1 and not P.big:
+                sname, smk = rng.choice([("Random", lambda: Random()), ("GradDrop", lambda: GradDrop()), ("PCGrad", lambda: PCGrad())])
+                sd = rng.randrange(10 ** 6)
+                A3 = smk()
+                torch.manual_seed(sd)
+                real3 = run_real(lambda: Aggregate(A3, [ts[i] for i in korder])(jd))
+                united = torch.cat([jd[ts[i]].reshape(m, -1) for i in korder], dim=1)
+                torch.manual_seed(sd)
+                ref = run_real(lambda: smk()(united))
+                ctx.count("transform", "Aggregate(stochastic)")
+                rp3 = {"transform": "Aggregate", "program": P.describe(), "prog_sx": sx(P.to_sx()), "key_order": korder,
+                       "agg": sname, "torch_seed": sd}
+                if real3[0] != ref[0]:
+                    ctx.violation(f"Aggregate({sname}): implementation {real3[0]}, the aggregator on the united matrix {ref[0]}", rp3)
+                elif real3[0] == "ok":
+                    off = 0
+                    for i in korder:
+                        w_ = jd[ts[i]].reshape(m, -1).shape[1]
+                        exp_i = ref[1][off:off + w_].reshape(ts[i].shape)
+                        off += w_
+                        got_i = real3[1][ts[i]]
+                        if got_i.shape != exp_i.shape or not torch.allclose(got_i.double(), exp_i.double(), rtol=1e-6, atol=1e-9 * (1 + float(united.abs().max()))):
+                            ctx.violation(f"Aggregate({sname}) under seed {sd}: the entry of key {i} is {got_i.flatten().tolist()}; the "
+                                          f"slice of {sname}(united matrix) under the same seed is {exp_i.flatten().tolist()} (one "
+                                          "aggregation of the concatenated matrix, not one per key)", rp3)
+                            break
     # --- Stack of Gradients with absent keys
     ks = rng.sample(nodes, rng.randint(1, min(3, len(nodes))))
     dicts = []
@@ -253,10 +282,10 @@ def chain(ctx: Ctx, M):
     T = len(losses)
     m = ctx.rng.choice([1, 2, 3])
     cot = {l: ints(ctx.rng, (m,)) for l in losses}
-    j1 = Jac([ts[l] for l in losses], [ts[f] for f in M.features], None, retain_graph=True)(
+    j1 = Jac(outputs=[ts[l] for l in losses], inputs=[ts[f] for f in M.features], chunk_size=None, retain_graph=True)(
         Jacobians({ts[l]: cot[l] for l in losses}))
-    j2 = Jac([ts[f] for f in M.features], [ts[s] for s in shared], None, retain_graph=True)(j1)
-    je = Jac([ts[l] for l in losses], [ts[s] for s in shared], None, retain_graph=True)(
+    j2 = Jac(outputs=[ts[f] for f in M.features], inputs=[ts[s] for s in shared], chunk_size=None, retain_graph=True)(j1)
+    je = Jac(outputs=[ts[l] for l in losses], inputs=[ts[s] for s in shared], chunk_size=None, retain_graph=True)(
         Jacobians({ts[l]: cot[l] for l in losses}))
     ctx.count("transform", "Jac-chain")
     ctx.case(("chain", tuple(P.describe()), m), nontrivial=True)
